@@ -141,6 +141,8 @@ class Parser:
         if define:
             toks = self.parser_work(define)
             main = utils.filter_set_toks(toks, 0, defs.LanguageToken)
+            # text output of definitions is discarded: also extracted parts
+            self.extracted = []
         main += self.parser_work(latex)
 
         if extract:
